@@ -470,3 +470,28 @@ def line_bounded_check(prog, R, rule):
         R.ob(rule, fn.split("::")[-1], not bad, b.at, "every eat_while predicate stops at '\\n'" if not bad else
              f"{bad[0]}: the token runs on into the next line (`pragma\\nqubit q;` becomes one PRAGMA token)")
     R.floor("eat_while calls in line-oriented scanners", n, 2)
+
+
+def unit_suffix_table(prog, R, rule, units):
+    """`Cursor::has_timing_or_imaginary_suffix`: after a number, a following `s` is the unit *second* whatever comes
+    after it (`(5s)`, `f(7s)`, `2s+3s`): with first() == 's' every path answers true without looking further."""
+    fn = "oq3_lexer::Cursor::has_timing_or_imaginary_suffix"
+    b = prog.body(fn)
+    if b is None:
+        R.ob("ANCHOR", fn, False)
+        return
+    if "s" not in units:
+        return
+
+    def model(se, st, t, cal, args, site):
+        if cal.endswith("Cursor::first"):
+            return ("c", "char", ord("s"))
+        return None
+    vals = set()
+    for p in SymExec(prog, b, max_visits=2, max_paths=400, call_model=model, inline=_lexer_helpers).paths():
+        if "__diverged__" in p.env and "__cut__" not in p.env:
+            continue
+        r = p.env.get(0)
+        vals.add(bool(r[2]) if isinstance(r, tuple) and r[0] == "c" and "__cut__" not in p.env else "?")
+    R.ob(rule, "a lone `s` after a number is the unit whatever follows", vals == {True}, b.at, "first() == 's' => true on every path" if vals == {True} else
+         f"with first() == 's' the answers are {sorted(map(str, vals))}: whether `s` counts as the unit depends on what follows it, so `(5s)` or `2s+3s` keep the `s` inside the number token and the literal loses its unit")
